@@ -117,6 +117,7 @@ class CallMixin(object):
       for o in self._call_with_args(node, st, cx, target):
         yield o
       return
+    f._pyvc_callee = True          # (an attribute read whose value is called at once: never an opaque data attribute)
     for st1, callee in self.ev(f, st, cx):
       if isinstance(callee, Exc):
         yield st1, callee
